@@ -1,6 +1,6 @@
 /* c08_chunking.c - C08: behaviour depends on the byte stream, not on how it is cut into input calls.
  * Bounded-exhaustive, differential: streams = every concatenation of 1..3 (thorough 1..4) messages of a
- * 13-message alphabet (queries, two units, block with embedded NL and ';', quoted string with embedded ';',
+ * 14-message alphabet (queries, two units, block with embedded NL and ';', quoted string with embedded ';',
  * quoted string with embedded NL, empty units, CR LF, undefined header, missing parameter, dangling comma,
  * trailing blanks, number with exponent, common + compound), optionally followed by an unterminated unit.
  * Schedules = EVERY partition for streams of <= 14 bytes, otherwise every partition with <= 2 cut points,
@@ -15,7 +15,7 @@
 
 static const char * msgs[] = {
     "Q1?\n", "AAAA:Bb;Ee\n", "BLK #15a\n;bc\n", "TXT? \"a;b\"\n", "TXT \"a\nb\"\n", ";;\n", "Q2?\r\n", "ZZ:YY\n", "I2 1\n", "I2 1,\n",
-    "OPT 5  \n", "DBL? 1.5e3\n", "*XY?;:AAAA:Cc12\n",
+    "OPT 5  \n", "DBL? 1.5e3\n", "*XY?;:AAAA:Cc12\n", "Q1?\r",
 };
 #define NMSG ((int) (sizeof msgs / sizeof msgs[0]))
 #define M_QUOTED_NL 4
